@@ -33,7 +33,7 @@ class Ty:
 
     def rs(self, self_name=None) -> str:
         k = self.kind
-        if k == "prim":
+        if k in ("prim", "raw"):
             return self.name
         if k == "param":
             return self.name
@@ -71,7 +71,7 @@ class Ty:
 
     def tag(self) -> str:
         k = self.kind
-        if k == "prim":
+        if k in ("prim", "raw"):
             return self.name
         if k in ("param", "self"):
             return k
